@@ -269,6 +269,9 @@ def oracle_ref(cases, impl, model):
                 fails.append({"case_index": k, "what": "a program of the documented grammar is rejected by the macros / does not compile: %s"
                               % c.get("compile_error", ""), "surface": c.get("surface", "")[:1500]})
             continue
+        if "expect_not" in c and any(a[0][0] == c["expect_not"] for a in i.answers):
+            fails.append({"case_index": k, "what": "%s: an answer has q = %s, which a later body entry excludes" % (c.get("what", ""), c["expect_not"]),
+                          "surface": c.get("surface", "")[:1500]})
         if "expect_values" in c and sorted(a[0][0] for a in i.answers) != sorted(c["expect_values"]):
             fails.append({"case_index": k, "what": "%s: the answers %s of the finite branches must be delivered, got %s (end %s)" %
                           (c.get("what", ""), c["expect_values"], [a[0][0] for a in i.answers], i.end), "surface": c.get("surface", "")[:1500]})
@@ -375,6 +378,14 @@ def run_c14(tier, seed, replay=None):
         exp = [str(v)] + ([str(v + 10)] if len(branches) == 3 else [])
         cases.append(mk_case(DEFS + [spinc, ping, pong], ["q"], [["cond"] + branches], maxans=len(exp), budget=1500, no_ref=True, expect_values=exp,
                              what="a disjunction with a silently diverging closure-style relation next to finite branches"))
+    # loop { a, b, .. }: the body is the conjunction of ALL its entries
+    for _ in range(max(8, n // 30)):
+        vals = rnd.sample(range(1, 7), 3)
+        first = ["cond"] + [["eq", "q", v] for v in vals]
+        rest = rnd.choice([[["neq", "q", vals[0]]], [["neq", "q", vals[0]], ["eq", "r", ["list", "q"]]], [["conj", ["neq", "q", vals[1]]], ["eq", "r", 0]]])
+        cases.append(mk_case(DEFS, ["q", "r"], [["loop", first] + rest], maxans=7, budget=1500, no_ref=True,
+                             expect_not=str(vals[0]) if rest[0] == ["neq", "q", vals[0]] else str(vals[1]),
+                             what="loop with several body entries: every entry constrains every round"))
     # project over SEVERAL variables (1-4): each name in the body denotes the walked value of ITS variable, in the order written
     for _ in range(max(10, n // 20)):
         k = rnd.randint(1, 4)
